@@ -99,12 +99,22 @@ func main() {
 			obs := safeRun(s, c)
 			enc.Encode(map[string]any{"id": c["id"], "i": obs})
 			out.Flush()
+			if strings.Contains(obs, "DIVERGED") {
+				// the call that did not return is still running (it cannot be stopped) and eats the processor:
+				// after a few of them this process is of no use any more; the cases left are run by a fresh one
+				divergedSeen++
+				if divergedSeen >= 3 {
+					os.Exit(7)
+				}
+			}
 		}
 	default:
 		fmt.Fprintln(os.Stderr, "unknown command", cmd)
 		os.Exit(2)
 	}
 }
+
+var divergedSeen int
 
 // safeRun turns a panic that escapes the code under test into an observation.
 func safeRun(s *Stream, c Case) (obs string) {
